@@ -818,15 +818,6 @@ func (in *Interp) binopTerm(op token.Token, xt types.Type, a, b *Term, yt types.
 			}
 			return ts.Zext(ts.bin(OURem, na, nb), w)
 		}
-		if signed {
-			// provably non-negative operands: signed and unsigned division agree
-			_, ah := in.ival(a)
-			_, bh := in.ival(b)
-			half := uint64(1) << uint(w-1)
-			if ah < half && bh < half {
-				signed = false
-			}
-		}
 		if op == token.QUO {
 			if signed {
 				return ts.bin(OSDiv, a, b)
